@@ -297,6 +297,11 @@ func generateConfig(r *rand.Rand, dumphook string, feedURLs []string) genConfig 
 		text = "\ufeff" + text // BOM
 		g.Notes = append(g.Notes, "bom")
 	}
+	if !validMode && r.Intn(25) == 0 {
+		// the whole file is one line without a line end, broken off in the middle of a construct
+		text = []string{"[network", "feeds", "style.colors.primary = \"#fcba", "network = {cache_size = 5", "[", "a =", "[media]hook = [\"x\"", "x = \"unterminated"}[r.Intn(8)]
+		g.MustReject = "syntax"
+	}
 	g.Text = text
 	return g
 }
